@@ -86,6 +86,7 @@ func (l mapLoop) earlyExits() []*ssa.BasicBlock {
 }
 
 func runC09(c *Ctx) {
+	runC09RequestCap(c)
 	runC09Leftovers(c)
 	runC09Satisfied(c)
 	borrow(c, "O10", "C07", "O7", "createQueueResourceAttrs", "each resource is divided by the queues' quota, limit and over-quota weight FOR THAT RESOURCE: a weight taken from another resource hands the surplus of one resource out in the proportions configured for another")
@@ -808,4 +809,65 @@ func runC09Leftovers(c *Ctx) {
 		}
 		c.Floor("O12", "MPT pops of the remainder list", m, 1)
 	}
+}
+
+// runC09RequestCap (O13): what a queue can ask for is its request capped by its limit, for EVERY limit except the
+// "no limit" sentinel — a limit of 0 caps the request at 0. In ResourceShare.GetRequestableShare the bare request is
+// answered only where MaxAllowed == UnlimitedResourceQuantity has been established (a sign test treats 0 like "no
+// limit": the queue's deserved share then exceeds what it can ever take and the same amount is missing from the
+// surplus of its siblings).
+func runC09RequestCap(c *Ctx) {
+	fn := c.Anchor("O13", "pkg/scheduler/plugins/proportion/resource_share", "ResourceShare", "GetRequestableShare")
+	if fn == nil {
+		return
+	}
+	fx := c.Fx
+	unlimited := func(fs FactSet) bool {
+		_, ok := hasFact(fs, func(f Fact) bool {
+			if f.T.Op != "bin" || len(f.T.Args) != 2 {
+				return false
+			}
+			isMax := f.T.Args[0].lastField() == "MaxAllowed" && f.T.Args[1].String() == "const:-1"
+			return isMax && ((f.T.Name == "==" && f.Pol) || (f.T.Name == "!=" && !f.Pol))
+		})
+		return ok
+	}
+	isBareRequest := func(v ssa.Value) bool {
+		u, ok := v.(*ssa.UnOp)
+		if !ok {
+			return false
+		}
+		fa, ok := u.X.(*ssa.FieldAddr)
+		return ok && termOf(fa).lastField() == "Request"
+	}
+	n := 0
+	for _, b := range fn.Blocks {
+		ret, ok := b.Instrs[len(b.Instrs)-1].(*ssa.Return)
+		if !ok || len(ret.Results) != 1 {
+			continue
+		}
+		v := ret.Results[0]
+		if phi, isPhi := v.(*ssa.Phi); isPhi {
+			for i, e := range phi.Edges {
+				if !isBareRequest(e) {
+					continue
+				}
+				n++
+				pred := phi.Block().Preds[i]
+				fs := fx.FactsAt(pred.Instrs[len(pred.Instrs)-1])
+				fs = fs.clone()
+				fs.addAll(fx.edgeFacts(pred, phi.Block(), 0))
+				c.Check(fx.acceptWithExpansion(fs, unlimited), "O13", "RET", fmt.Sprintf("%s: the uncapped request is answered only for the 'no limit' sentinel (φ edge %d)", funcKey(fn), i), instrPos(ret), "MaxAllowed == UnlimitedResourceQuantity",
+					"the request is returned uncapped for a limit that is not the 'no limit' sentinel (e.g. limit 0): the queue is given a deserved share it can never use and its siblings get less surplus")
+			}
+			continue
+		}
+		if !isBareRequest(v) {
+			continue
+		}
+		n++
+		c.Check(fx.allPathsSatisfy(ret, unlimited), "O13", "RET", funcKey(fn)+": the uncapped request is answered only for the 'no limit' sentinel", instrPos(ret), "MaxAllowed == UnlimitedResourceQuantity",
+			"the request is returned uncapped for a limit that is not the 'no limit' sentinel (e.g. limit 0): the queue is given a deserved share it can never use and its siblings get less surplus")
+	}
+	c.Floor("O13", "RET uncapped answers of GetRequestableShare", n, 1)
 }
